@@ -428,6 +428,68 @@ fn part_containers(ctx: &Arc<Ctx>) {
 		});
 		ctx.outcome_n(&format!("pmtiles tile counts around the root-directory limit (switch at {switch})"), ns.len() as u64);
 	}
+	// a conversion that flips / swaps the coordinates: the metadata of the output must describe the output
+	{
+		use versatiles_container::{TilesConvertReader, TilesConverterParameters};
+		let rt = tokio::runtime::Builder::new_current_thread().build().unwrap();
+		let mut tiles = TileMap::new();
+		for k in [(2u8, 1u32, 0u32), (5, 9, 3), (5, 10, 4)] {
+			tiles.insert(k, format!("t{k:?}").into_bytes());
+		}
+		let mut n = 0u64;
+		for with_bounds in [false, true] {
+			for flags in 1..4u8 {
+				for cont in [Cont::Versatiles, Cont::Pmtiles, Cont::Tar, Cont::Directory, Cont::Mbtiles] {
+					let mut tj = TileJSON::try_from(r#"{"tilejson":"3.0.0","name":"transformed"}"#).unwrap();
+					let src0 = MemSource::new("m", tiles.clone(), TileFormat::PNG, TileCompression::Uncompressed);
+					if with_bounds {
+						// what the directory / mbtiles readers put into the document when they open a source
+						tj.update_from_pyramid(&src0.parameters.bbox_pyramid);
+					}
+					let src = src0.with_tilejson(tj);
+					let mut cp = TilesConverterParameters::new_default();
+					cp.flip_y = flags & 1 != 0;
+					cp.swap_xy = flags & 2 != 0;
+					let case = json!({"kind": "transformed conversion", "cont": cont, "flip_y": cp.flip_y, "swap_xy": cp.swap_xy, "source_document_has_bounds": with_bounds});
+					let label = format!("{} flip_y={} swap_xy={} source bounds={with_bounds}", cont.name(), cp.flip_y, cp.swap_xy);
+					ctx.eval();
+					n += 1;
+					let (flip_y, swap_xy) = (cp.flip_y, cp.swap_xy);
+					let Ok(mut conv) = TilesConvertReader::new_from_reader(Box::new(src), cp) else { continue };
+					let w = match ct::write(&rt, cont, &mut conv, &work.0, &format!("tr{n}")) {
+						Ok(w) => w,
+						Err(e) => {
+							ctx.violation(&format!("{}: transformed conversion fails: {}", cont.name(), super::c01::norm_msg(&e)), &format!("{label}: {e}"), case);
+							continue;
+						}
+					};
+					if let Ok(r) = ct::open(&rt, cont, &w) {
+						let got: Value = serde_json::from_str(&r.get_tilejson().as_string()).unwrap_or(Value::Null);
+						if got["name"] != "transformed" {
+							ctx.violation("returned TileJSON of a transformed conversion lost the document", &format!("{label}: {got}"), case.clone());
+						}
+						if let Some(b) = got["bounds"].as_array().map(|a| a.iter().filter_map(|x| x.as_f64()).collect::<Vec<_>>()) {
+							// the deepest level holds (9,3) and (10,4): where they are after the transform
+							let place = |x: u32, y: u32| {
+								let (x, y) = if flip_y { (x, 31 - y) } else { (x, y) };
+								if swap_xy { (y, x) } else { (x, y) }
+							};
+							for (x, y) in [place(9, 3), place(10, 4)] {
+								let t = TileCoord3 { x, y, z: 5 }.as_geo_bbox();
+								let (tw, ts, te, tn) = (t.0.min(t.2), t.1.min(t.3), t.0.max(t.2), t.1.max(t.3));
+								if b.len() != 4 || b[0] > b[2] || b[1] > b[3] || b[0] > tw + 1e-6 || b[2] < te - 1e-6 || b[1] > ts + 1e-6 || b[3] < tn - 1e-6 {
+									ctx.violation("bounds of a transformed conversion do not contain its tiles", &format!("{label}: bounds {b:?}, output tile (5,{x},{y}) spans [{tw},{ts},{te},{tn}]"), case.clone());
+									break;
+								}
+							}
+						}
+					}
+					ct::cleanup(&w);
+				}
+			}
+		}
+		ctx.outcome_n("transformed conversions (flags x formats x source bounds)", n);
+	}
 	ctx.outcome_n("TileJSON documents x containers x compressions", jobs.len() as u64);
 	ctx.state(jobs.len() as u64);
 	ctx.transition(jobs.len() as u64);
@@ -437,7 +499,7 @@ fn part_containers(ctx: &Arc<Ctx>) {
 pub fn run(ctx: Arc<Ctx>) {
 	ctx.rule(
 		"values: all 1,112,064 one-character strings; all strings of length <= 3 over 20 escape-class characters (also as object keys); 36 numbers incl. -0, 1e21, 5e-324, max double, 2^53+-1; all nested values of depth <= 2 and width <= 2 over 7 leaves and three keys, depth 3 over every 401st (quick) / 7th (thorough) depth-2 value; each through stringify -> own parser (equal value) and stringify -> serde_json (same value). \
-		 TileJSON: 7 documents (incl. lists that repeat an entry) x {versatiles, pmtiles, tar, directory} x 3 compressions written by the real writers; PMTiles also at 83 tile counts around the point where the root directory fills its 16 KiB area (the metadata lies right behind it); stored metadata (independently decoded) and the re-opened reader's TileJSON must equal the given document, zoom range and bounds only narrowed, also when the reader's tile compression label is overridden before / after the first access; served tiles.json checked through the real server. non-trivial = distinct values / documents",
+		 TileJSON: 7 documents (incl. lists that repeat an entry) x {versatiles, pmtiles, tar, directory} x 3 compressions written by the real writers; PMTiles also at 83 tile counts around the point where the root directory fills its 16 KiB area (the metadata lies right behind it); stored metadata (independently decoded) and the re-opened reader's TileJSON must equal the given document, zoom range and bounds only narrowed, also when the reader's tile compression label is overridden before / after the first access; conversions with flip / swap into all five formats (source document with and without bounds): returned bounds must contain the transformed tiles; served tiles.json checked through the real server without and with --flip-y / --swap-xy over versatiles, pmtiles, directory and tar sources. non-trivial = distinct values / documents",
 	);
 	ctx.assume("serde_json is the 'standard JSON parser'; numbers are compared as f64");
 	part_values(&ctx);
